@@ -6,34 +6,10 @@ C11 — lists of `def` items: helper notions and lemmas for Props2.lean.
 namespace Holpy.C11
 open Holpy
 
-/-- a `def` item as the checker sees it: constant, type, statement; `thname` is `<cname>_def` -/
-structure DefItem where
-  name : String
-  T : Ty
-  prop : Term
-  thname : String
-
 /-- the theorem `Definition.get_extension` adds, as the theory stores it -/
 def DefItem.toThm (d : DefItem) : String × Thm := (d.thname, ⟨[], convSvar d.prop⟩)
 
 def defsOf (items : List DefItem) : List (String × Thm) := items.map DefItem.toThm
-
-/-- names of the constants of a term -/
-def constNames : Term → List String
-  | .const n _ => [n]
-  | .comb f a => constNames f ++ constNames a
-  | .abs _ _ b => constNames b
-  | _ => []
-
-/-- items in REVERSE order of declaration (newest first): each is accepted by `Definition.parse`
-and its constant is new — it occurs in none of the earlier statements -/
-def acceptedRev : List DefItem → Bool
-  | [] => true
-  | d :: earlier => defOK d.name d.T d.prop && nonLogicalName d.name
-      && earlier.all (fun e => !(constNames e.prop).contains d.name) && acceptedRev earlier
-
-/-- the items, in order of declaration, are each accepted in the theory extended by the previous ones -/
-def accepted (items : List DefItem) : Bool := acceptedRev items.reverse
 
 theorem constNames_swapKinds (t : Term) : constNames (swapKinds t) = constNames t := by
   induction t with
